@@ -3,6 +3,7 @@ import PynetVerif.Driver.Status
 import PynetVerif.Driver.Fsm
 import PynetVerif.Driver.Framing
 import PynetVerif.Driver.Scu
+import PynetVerif.Driver.Dul
 open PynetVerif
 
 /-- Each model contributes `String → List SExp → Option SExp` (none = not my op). -/
@@ -10,7 +11,8 @@ def handlers : List (String → List SExp → Option SExp) :=
   [Driver.statusOps,
    Driver.fsmOps,
    Driver.framingOps,
-   Driver.scuOps]
+   Driver.scuOps,
+   Driver.dulOps]
 
 def handle (e : SExp) : SExp :=
   match e with
